@@ -546,7 +546,8 @@ def probe_kinds():
 # ----------------------------------------------------------------------------- one program = one kind + several histories
 class Prog:
     def __init__(self, tag, kind, hists, cls):
-        self.tag, self.kind, self.hists, self.cls = tag, kind, hists, cls      # cls: 'A' long filtered / 'B' short unfiltered / 'P' probe / 'C' corpus
+        # cls (one letter per history): 'A' long, two-child deletes filtered out on the pinned runtime / 'B' short, unfiltered / 'P' probe
+        self.tag, self.kind, self.hists, self.cls = tag, kind, hists, cls if len(cls) == len(hists) else cls * len(hists)
         self.mobs, self.minfo = [], []
 
 
@@ -565,10 +566,10 @@ def prepare(ctx, model, warun, prog, variant):
             raise vlib.InfraError("C13: cannot read the comp table of the interface-key program: " + err)
     final, base = [], 0
     mvar = "pinned" if variant == "pinned" else "fixed"
-    for h in prog.hists:
+    for h, hcls in zip(prog.hists, prog.cls):
         ops = list(h)
         if kind.rank is not None and model:
-            if variant == "pinned" and prog.cls == "A":
+            if variant == "pinned" and hcls == "A":
                 _, info = mirror_run(ctx, model, kind, ops, base, mvar, safe=True)
                 ops = [("c", k) if (o == "d" and info[j]["skipped"]) else (o, k) for j, (o, k) in enumerate(ops)]
             elif variant == "pinned":
@@ -758,12 +759,12 @@ def run(ctx):
             if not quick:
                 n = min(n * 2, 1500) if name not in ("bool", "uint8") else n
             kind = make_kind(name, rng, n)
-            la = (1500 if quick else 6000) if name != "bool" else 300
+            la = (1200 if quick else 6000) if name != "bool" else 300
             styles = ["churn", "asc", "desc", "drain"]
-            progs.append(Prog("%s-A%d" % (name, rd), kind, [gen_history(rng, kind, la, styles[(i + rd) % 4]) for i in range(3)], "A"))
-            nb = 12 if quick else 40
-            progs.append(Prog("%s-B%d" % (name, rd), kind,
-                              [gen_history(rng, kind, rng.choice([40, 120, 300]), rng.choice(styles)) for _ in range(nb if name != "bool" else 4)], "B"))
+            ha = [gen_history(rng, kind, la, styles[(i + rd) % 4]) for i in range(3)]
+            nb = (10 if quick else 40) if name != "bool" else 4
+            hb = [gen_history(rng, kind, rng.choice([40, 120, 300]), rng.choice(styles)) for _ in range(nb)]
+            progs.append(Prog("%s-%d" % (name, rd), kind, ha + hb, "A" * len(ha) + "B" * len(hb)))
     for k in probe_kinds():
         hs = []
         for _ in range(6):
